@@ -54,6 +54,8 @@ var verifPositions = []string{
 	"select a from t where b = c union select a from u where d = %s",
 	"select a from t where %s in ('x', 'y')",
 	"select a from t where b + %s not in (5, 6)",
+	"select a from t where b like %s escape '!'",
+	"select a from t where b ilike %s escape '!' and c not ilike 'x' escape %s",
 }
 
 type verifSpelling struct {
@@ -80,7 +82,7 @@ var verifHexNumber = verifSpelling{"0x", "", 'A', 'F', 4, false, true}
 // VerifC16_RedactLiterals: a marker literal of every spelling at every literal position never appears in the
 // redacted form, and the redacted form keeps the statement's shape (it parses again).
 func VerifC16_RedactLiterals() {
-	p := verif.Choose("position", 0, len(verifPositions)-1)
+	p := verif.Choose("position", 0, 13) // the positions every dialect accepts (the last two are LIKE/ILIKE ... ESCAPE for C13)
 	s := verif.Choose("spelling", 0, len(verifSpellings)-1)
 	sp := verifSpellings[s]
 	pg := verif.Choose("pg", 0, 1) == 1
